@@ -5,23 +5,25 @@ import json, os, subprocess, sys, time
 args = [a for a in sys.argv[1:] if not a.startswith('--')]
 tier = 'quick'
 checks = None
+REPO = '/repo'     # --wt=<scratch worktree>: apply and test there instead (leaves /repo alone)
 for a in sys.argv[1:]:
     if a.startswith('--tier='): tier = a.split('=')[1]
     if a.startswith('--checks='): checks = a.split('=')[1].split(',')
+    if a.startswith('--wt='): REPO = a.split('=')[1]
 root = '/verif/seeded'
 names = args or sorted(os.listdir(root))
 for n in names:
     d = os.path.join(root, n)
     meta = json.load(open(os.path.join(d, 'meta.json')))
-    if subprocess.run(['git', '-C', '/repo', 'diff', '--quiet']).returncode != 0:
-        print('/repo not clean'); sys.exit(2)
-    r = subprocess.run(['git', '-C', '/repo', 'apply', '--whitespace=nowarn', os.path.join(d, 'patch.diff')])
+    if subprocess.run(['git', '-C', REPO, 'diff', '--quiet']).returncode != 0:
+        print(REPO + ' not clean'); sys.exit(2)
+    r = subprocess.run(['git', '-C', REPO, 'apply', '--whitespace=nowarn', os.path.join(d, 'patch.diff')])
     if r.returncode != 0:
         print(n, 'patch does not apply'); continue
     try:
         for c in (checks or [meta['property']]):
             t0 = time.time()
-            p = subprocess.run(['./check', c, '--tier', tier], cwd='/verif', capture_output=True, text=True)
+            p = subprocess.run(['./check', c, '--tier', tier] + (['--repo', REPO] if REPO != '/repo' else []), cwd='/verif', capture_output=True, text=True)
             viol = [l for l in p.stdout.splitlines() if l.startswith('VIOLATION')]
             sigs = [l.strip() for l in p.stdout.splitlines() if l.strip().startswith('signature=')]
             res = {'check': c, 'tier': tier, 'exit': p.returncode, 'violations': len(viol), 'signatures': sigs[:4],
@@ -35,5 +37,5 @@ for n in names:
             if p.returncode == 2:
                 print(p.stdout[-1500:])
     finally:
-        subprocess.run(['git', '-C', '/repo', 'checkout', '--', '.'])
+        subprocess.run(['git', '-C', REPO, 'checkout', '--', '.'])
     json.dump(meta, open(os.path.join(d, 'meta.json'), 'w'), indent=1)
